@@ -238,3 +238,88 @@ Lemma caches_size_keys c tr s cn :
   run c (init c) tr = Some s -> In cn (conns s) ->
   NoDup (keys (cmap (cch cn))) /\ ccnt (cch cn) = Z.of_nat (length (keys (cmap (cch cn)))).
 Proof. intros Hr Hin. exact (c16_caches_wf c tr s cn Hr Hin). Qed.
+
+(* ------------------------------------------------------------------ a failed check discards *)
+(* what a get did to a client that was idle and is still owned afterwards: nothing, or it passed
+   its recycle (not closed, check not failed), received exactly the documented check, was handed out *)
+Lemma get_loop_touched c order : forall s x,
+  Inv c s -> NoDup order -> (forall y, In y order -> In y (idle s)) -> In x order ->
+  owned (fst (get_loop c order s)) x ->
+  (In x (idle (fst (get_loop c order s)))
+   /\ ctl x (tl (fst (get_loop c order s))) = ctl x (tl s)
+   /\ getc (fst (get_loop c order s)) x = getc s x)
+  \/ (In x (out (fst (get_loop c order s)))
+      /\ snd (recycle (meth c) (getc s x)) = true
+      /\ ctl x (tl (fst (get_loop c order s)))
+         = THand true false :: map TMsg (rev (check_msgs (meth c))) ++ ctl x (tl s)).
+Proof.
+  induction order as [|y rest IH]; intros s x HI Hd Hsub Hin; [destruct Hin|].
+  cbn [get_loop].
+  assert (Hy : In y (idle s)) by (apply Hsub; left; reflexivity).
+  assert (Hy' : (y < length (conns s))%nat) by (apply (inv_ids _ _ HI); left; left; assumption).
+  pose proof (inv_nodup _ _ HI) as N. apply nodup_app_iff in N. destruct N as (N1 & N2 & N3).
+  inversion Hd as [|? ? Hn Hd']; subst.
+  pose proof (recycle_spec (meth c) (getc s y)) as Hspec.
+  destruct (recycle (meth c) (getc s y)) as [[cn ms] ok] eqn:Hrec. destruct Hspec as (Hcch & Hclosed & Hopen).
+  assert (Hwfc : cache_wf (cch cn)).
+  { rewrite Hcch. unfold getc. apply Forall_nth_default; [apply (inv_wf _ _ HI) | apply wf_empty]. }
+  destruct ok.
+  - cbn [fst]. intros Ho.
+    assert (Hop : closed (getc s y) = false).
+    { destruct (closed (getc s y)); [|reflexivity]. destruct (Hclosed eq_refl) as (_ & H). discriminate. }
+    destruct (Hopen Hop) as (Hms & _ & Hcl). subst ms. sp.
+    rewrite ctl_cons, ctl_app, ctl_msgs. destruct Hin as [He|Hr].
+    + subst x. right. split; [apply in_or_app; right; left; reflexivity|]. split; [rewrite Hrec; reflexivity|].
+      rewrite Nat.eqb_refl. unfold getc. sp. rewrite nth_updl_same by assumption.
+      rewrite (Hcl eq_refl). reflexivity.
+    + assert (Hne : y <> x) by (intros He; subst; exact (Hn Hr)).
+      left. split; [apply In_remove_nat; [assumption | split; [apply Hsub; right; assumption | congruence]]|].
+      assert (E : Nat.eqb y x = false) by (apply Nat.eqb_neq; assumption). rewrite E.
+      split; [reflexivity|]. unfold getc. sp. apply nth_updl_other. assumption.
+  - intros Ho.
+    assert (HI2 : Inv c (release y (logm y ms (setc s y cn)))).
+    { eapply inv_release with (s := s) (ms := ms); try eassumption; sp; try reflexivity.
+      - apply updl_length.
+      - apply Forall_updl; [apply (inv_wf _ _ HI) | assumption]. }
+    assert (Hsub2 : forall z, In z rest -> In z (idle (release y (logm y ms (setc s y cn))))).
+    { intros z Hz. sp. apply In_remove_nat; [assumption|].
+      split; [apply Hsub; right; assumption | intros He; subst; exact (Hn Hz)]. }
+    destruct Hin as [He|Hr].
+    + subst x. exfalso. apply get_loop_owned in Ho. rewrite release_conns in Ho. sp.
+      rewrite updl_length in Ho. destruct Ho as [Ho|[Ho|Ho]]; [|exact (Hn Ho) | lia].
+      unfold owned in Ho. sp. destruct Ho as [Ho|Ho].
+      * destruct (remove_nat_NoDup y _ N1) as (_ & M). exact (M Ho).
+      * exact (N3 y Hy Ho).
+    + assert (Hne : y <> x) by (intros He; subst; exact (Hn Hr)).
+      assert (E : Nat.eqb y x = false) by (apply Nat.eqb_neq; assumption).
+      specialize (IH _ x HI2 Hd' Hsub2 Hr Ho).
+      assert (Hlog : ctl x (tl (release y (logm y ms (setc s y cn)))) = ctl x (tl s)).
+      { sp. rewrite ctl_cons, ctl_app, ctl_msgs, E. reflexivity. }
+      assert (Hget : getc (release y (logm y ms (setc s y cn))) x = getc s x).
+      { unfold getc. sp. apply nth_updl_other. assumption. }
+      rewrite Hlog, Hget in IH. exact IH.
+Qed.
+
+Lemma c16_get_touched c tr s s' r x :
+  run c (init c) tr = Some s -> step c s LGet = Some (s', r) -> In x (idle s) -> owned s' x ->
+  (In x (idle s') /\ ctl x (tl s') = ctl x (tl s) /\ getc s' x = getc s x)
+  \/ (In x (out s')
+      /\ closed (getc s x) = false /\ (sql_of (meth c) = None \/ armq (getc s x) = FNone)
+      /\ ctl x (tl s') = THand true false :: map TMsg (rev (check_msgs (meth c))) ++ ctl x (tl s)).
+Proof.
+  intros Hr Hs Hin Ho. pose proof (inv_reachable _ _ _ Hr) as HI. cbn [step] in Hs.
+  inversion Hs as [He]. unfold do_get in He. destruct (pclosed s).
+  { inversion He; subst. left. auto. }
+  destruct (Z.ltb (debt s) (permits s)).
+  - match type of He with get_loop c ?o ?st = _ =>
+      pose proof (get_loop_touched c o st x) as K end.
+    rewrite He in K. cbn [fst] in K.
+    assert (HI' : Inv c (set_debt (set_permits s (permits s - debt s - 1)) 0))
+      by (eapply inv_ext; [| | | | | |exact HI]; reflexivity).
+    destruct (idle_order_nodup c s (lifo c) HI) as (Hd & Hsub).
+    assert (Hin' : In x (if lifo c then rev (idle s) else idle s))
+      by (destruct (lifo c); [apply in_rev; rewrite rev_involutive; assumption | assumption]).
+    destruct (K HI' Hd Hsub Hin' Ho) as [K1|(K1 & K2 & K3)]; [left; exact K1|].
+    right. apply recycle_verdict in K2. destruct K2 as (K2 & K4). auto.
+  - inversion He; subst. left. auto.
+Qed.
